@@ -100,6 +100,19 @@ func main() {
 			}
 		}
 		fmt.Printf("%d loops, %d unclassified\n", n, un)
+	case "units":
+		p, err := Load(*repo, *goos, "", nil)
+		if err != nil {
+			fmt.Fprintln(os.Stderr, err)
+			os.Exit(2)
+		}
+		e := newUnitEngine(p)
+		fs := e.allFindings(p.RepoFuncs)
+		keys := unitFindingKeys(fs)
+		for i, f := range fs {
+			fmt.Printf("%s  [%s] %s %s\n", keys[i], p.IPos(f.In), f.In.String(), f.Why)
+		}
+		fmt.Printf("%d findings\n", len(fs))
 	case "explain":
 		if len(pos) != 1 {
 			usage()
